@@ -54,6 +54,8 @@ def step (st : St) (l : String) : St × String :=
   let ri := st.ds.ri
   match words l with
   | ["snapshot"] => (clear st.s, snapshot pending)
+  -- the non-ASCII code points Go lower-cases to ASCII (hypothesis of C03.tokenize_toLower): U+0130, U+212A
+  | ["foldscan"] => (st, "fold 304 8490")
   | ["load"] => let s := DbState.step (S := Float) ri st.s (.load pending); (clear s, stLine s)
   | ["loadp", k, present] =>
     match natOf? k with
